@@ -80,6 +80,13 @@ Sites == <<
     "sig.alg.0.hash+sig.alg.0.sign"),
   S("signature_pair_in_key_exchange", "parse_content_and_signature", [NoArgs EXCEPT !.sub = "ecdh", !.ext = 1], <<3, 0, 23, 1, 4>>, 2, <<0, 1, 9>>,
     "sig.alg.0.hash+sig.alg.0.sign"),
+  (* sibling fields: a field's value is preserved whatever its neighbours say *)
+  HsS("server_hello_compression_tls13_cipher", 2, <<3, 3>> \o R32 \o <<0, 19, 1>>, 1, <<>>, "m.comp"),
+  HsS("server_hello_compression_unlisted_cipher", 2, <<3, 3>> \o R32 \o <<0, 255, 255>>, 1, <<>>, "m.comp"),
+  HsS("server_hello_cipher_compression_255", 2, <<3, 3>> \o R32 \o <<0>>, 2, <<255>>, "m.cipher"),
+  HsS("client_hello_cipher_after_tls13_cipher", 1, ChPre \o <<0, 4, 19, 1>>, 2, <<2, 0, 1>>, "m.ciphers.1"),
+  S("dtls_server_hello_compression_tls13_cipher", "parse_dtls_message_handshake", NoArgs,
+    <<2, 0, 0, 38, 0, 1, 0, 0, 0, 0, 0, 38, 254, 253>> \o R32 \o <<0, 19, 2>>, 1, <<>>, "body.comp"),
   S("record_version_handshake", "parse_tls_plaintext", NoArgs, <<22>>, 2, <<0, 4, 14, 0, 0, 0>>, "hdr.ver"),
   S("record_version_ccs", "tls_parser", NoArgs, <<20>>, 2, <<0, 1, 1>>, "hdr.ver"),
   S("dtls_server_hello_version", "parse_dtls_message_handshake", NoArgs, <<2, 0, 0, 44, 0, 1, 0, 0, 0, 0, 0, 44>>, 2,
@@ -108,7 +115,10 @@ Acc(site, v) ==
     [] site \in {"draft18_cipher", "server_hello_cipher"} -> v.m.cipher
     [] site = "client_hello_cipher" -> v.m.ciphers[2]
     [] site = "client_hello_compression" -> v.m.comp[2]
-    [] site = "server_hello_compression" -> v.m.comp
+    [] site \in {"server_hello_compression", "server_hello_compression_tls13_cipher", "server_hello_compression_unlisted_cipher"} -> v.m.comp
+    [] site = "server_hello_cipher_compression_255" -> v.m.cipher
+    [] site = "client_hello_cipher_after_tls13_cipher" -> v.m.ciphers[2]
+    [] site = "dtls_server_hello_compression_tls13_cipher" -> v.body.comp
     [] site = "alert_level" -> v.sev [] site = "alert_description" -> v.code
     [] site = "alert_level_in_record" -> v.msg[1].sev [] site = "alert_description_in_record" -> v.msg[2].code
     [] site = "heartbeat_type" -> v.msg[1].hbt
